@@ -18,8 +18,14 @@ RULE = ("(purity) seeded random documents x paths of every segment kind (keys, i
         "vanishes although no EQUAL pair is among the subtracted results gets its own signature.  (creation) documents x straight-line key/index paths made of an "
         "existing prefix of every length (through integer keys too, addressed by their digits) followed by a missing tail of 1-4 "
         "segments (also fully existing paths; missing keys with every character that needs a backslash escape - separators, "
-        "brackets, quotes, &, *, space, the backslash ... - in dot and slash notation, fenced by 'the text parses to the intended "
-        "segments'; missing negative / zero / positive digit keys), through "
+        "brackets, quotes, &, *, space, the backslash ... - in dot and slash notation, written with backslash escapes or - a third "
+        "of the cases - INSIDE QUOTATION MARKS ('x*', \"a.b\": only the quotation mark and the backslash are escaped there; with "
+        "qplain every key is quoted), fenced by 'the Lean PARSER MODEL reads the text as exactly the intended KEY / INDEX "
+        "segments' - not by the real parser, so an implementation that reads a quoted key as a wildcard search is judged, not "
+        "skipped; missing negative / zero / positive digit keys; 12 % of the supplied values are TEXT spelled like a Python "
+        "literal - simple quoted string literals ('abc', \"two words\", '5', ''), which must be stored with their quotation marks, "
+        "and integer look-alikes (0x1F, -0o17, 0b101, (1), - 5: an int for ast.literal_eval, a ValueError for int()), which must "
+        "be stored as that text), through "
         "get_nodes(mustexist=False, default_value=v) and set_value(v, format): the whole document afterwards must equal the Lean model "
         "createPath; directly on the real code: the path then resolves to exactly one node holding the value and every pre-existing "
         "node that is not an ancestor of the created spine is unchanged.  Tails also start with a NEGATIVE index below the list (idx < -len, written [n] or as a bare "
@@ -63,16 +69,35 @@ def esc_key(key):
     return "".join(c if (c.isalnum() or c in "_-") else "\\" + c for c in str(key))
 
 
-def path_text(segs, sep="."):
+def quote_key(key, q):
+    """The key written inside quotation marks `q` (' or "): only the quotation mark itself and the backslash need a
+    backslash there; separators, brackets, `*`, `&`, blanks ... stand for themselves."""
+    return q + "".join("\\" + c if c in (q, "\\") else c for c in str(key)) + q
+
+
+def key_text(key, quote=None, qplain=False):
+    """One key segment: backslash-escaped, or - with `quote` - in quotation marks when it holds a character that needs
+    escaping (with `qplain`: always).  The empty key cannot be written in quotes (`''` is no segment)."""
+    key = str(key)
+    if quote and key and (qplain or any(not (c.isalnum() or c in "_-") for c in key)):
+        return quote_key(key, quote)
+    return esc_key(key)
+
+
+def path_text(segs, sep=".", quote=None, qplain=False):
     t = ""
     for kind, ref in segs:
         if kind == "i":
             t += "[%d]" % ref
         elif sep == "/":
-            t += "/" + esc_key(ref)
+            t += "/" + key_text(ref, quote, qplain)
         else:
-            t += ("." if t else "") + esc_key(ref)
+            t += ("." if t else "") + key_text(ref, quote, qplain)
     return t
+
+
+def case_path(case):
+    return path_text(case["segs"], case.get("sep", "."), case.get("quote"), bool(case.get("qplain")))
 
 
 def parses_to(path, segs):
@@ -90,6 +115,23 @@ def parses_to(path, segs):
             if t is not PathSegmentTypes.INDEX or a != ref:
                 return False
         elif t is not PathSegmentTypes.KEY or a != str(ref):
+            return False
+    return True
+
+
+def model_parses_to(ans, segs):
+    """Fence by the Lean PARSER MODEL (answer of driver op C14.parse; the parser is C14's / C08's subject): the text
+    denotes exactly the intended KEY / INDEX segments.  Unlike `parses_to` it does not ask the implementation, so a
+    real parser that reads a quoted or escaped key as something else (a wildcard search, say) does not put the case out
+    of the model - its creation is then judged against the segments the text denotes."""
+    got = ans.get("esc", {}).get("ok")
+    if got is None or len(got) != len(segs):
+        return False
+    for (t, a), (kind, ref) in zip(got, segs):
+        if kind == "i":
+            if t != "INDEX" or not isinstance(a, dict) or a.get("int") != str(ref):
+                return False
+        elif t != "KEY" or a != str(ref):
             return False
     return True
 
@@ -189,6 +231,47 @@ def gen_segs(rng, doc, esc=False, ints=False):
     return segs
 
 
+# Supplied values that are TEXT spelled like a Python literal (`Nodes.wrap_type` / `make_new_node` hand every text to
+# ast.literal_eval): a simple quoted string literal - the created node must hold the supplied text, quotation marks
+# included - and integer look-alikes (an int for literal_eval, a ValueError for int(): the node holds the text).
+LIT_BODIES = ["abc", "two words", "", "5", "true", "1.5", "None", "x*", "a.b", " pad ", "é", "0x1F", "k: v", "#"]
+
+
+def gen_literal_text(rng, lookalikes=True):
+    r = rng.random()
+    if r < 0.6 or not lookalikes:
+        q = rng.choice("'\"")
+        body = rng.choice(LIT_BODIES + ["it%ss" % ("'" if q == '"' else '"')])
+        return q + body + q
+    sign = rng.choice(["", "", "-", "+"])
+    dec = rng.choice(["0", "1", "7", "12", "300", str(rng.randrange(1, 10 ** rng.randint(1, 9)))])
+    if r < 0.85:
+        base = rng.choice("xXoObB")
+        digs = {"x": "0123456789abcdefABCDEF", "o": "01234567", "b": "01"}[base.lower()]
+        return sign + "0" + base + "".join(rng.choice(digs) for _ in range(rng.randint(1, 6)))
+    if r < 0.95:
+        return "(" + sign + dec + ")"
+    return rng.choice("-+") + " " + dec
+
+
+def is_int_lookalike(v):
+    """A text that ast.literal_eval reads as an int although int(text) raises ValueError (0x1F, 0o17, (1), - 5)."""
+    import ast
+    if not isinstance(v, str):
+        return False
+    try:
+        lit = ast.literal_eval(v)
+    except Exception:  # noqa
+        return False
+    if type(lit) is not int:
+        return False
+    try:
+        int(v)
+    except ValueError:
+        return True
+    return False
+
+
 def gen_create_cases(rng, n):
     out = []
     for _ in range(n):
@@ -198,8 +281,15 @@ def gen_create_cases(rng, n):
             doc = with_int_keys(rng, doc)
         for _ in range(3):
             v = rng.choice(ed.VALUES)
-            out.append({"doc": doc, "segs": gen_segs(rng, doc, esc=rng.random() < 0.3, ints=ints), "v": [v[0], v[1]],
-                        "fmt": rng.choice(ed.FORMATS), "mode": rng.choice(["set", "set", "get"]), "sep": rng.choice([".", ".", "/"])})
+            if rng.random() < 0.12:
+                v = ("str", gen_literal_text(rng))
+            case = {"doc": doc, "segs": gen_segs(rng, doc, esc=rng.random() < 0.3, ints=ints), "v": [v[0], v[1]],
+                    "fmt": rng.choice(ed.FORMATS), "mode": rng.choice(["set", "set", "get"]), "sep": rng.choice([".", ".", "/"])}
+            if rng.random() < 0.35:
+                # key segments written in quotation marks (those that hold a character needing an escape; with qplain all)
+                case["quote"] = rng.choice("'\"")
+                case["qplain"] = rng.random() < 0.3
+            out.append(case)
     return out
 
 
@@ -477,20 +567,30 @@ def _job(cases):
             if case.get("fanout"):
                 fanout_case(case, bump, viol, keys)
                 continue
-            r = real_create(case)
         except codec.OutOfModel:
             stats["oom"] += 1
             continue
-        pend.append((case, r))
+        pend.append(case)
     if pend:
+        # the model side first (it does not depend on the implementation): what the path text denotes (parser model),
+        # the document after the creation, the new scalar
         reqs = []
-        for case, _ in pend:
+        for case in pend:
+            reqs.append({"op": "C14.parse", "t": case_path(case)})
             reqs.append({"op": "C09.create", "doc": case["doc"], "segs": case["segs"], "v": codec.scalar_to_json(case["v"][1]),
                          "fmt": case["fmt"], "mode": case["mode"]})
             reqs.append({"op": "C03.newscalar", "v": codec.scalar_to_json(case["v"][1]), "fmt": case["fmt"]})
         ans = core.Driver().ask(reqs)
-        for i, (case, r) in enumerate(pend):
-            judge_create(case, r, ans[2 * i], ans[2 * i + 1], bump, viol, disag, samples, keys, stats)
+        for i, case in enumerate(pend):
+            if not model_parses_to(ans[3 * i], case["segs"]):
+                stats["oom"] += 1            # the text does not denote the intended key / index segments
+                continue
+            try:
+                r = real_create(case)
+            except codec.OutOfModel:
+                stats["oom"] += 1
+                continue
+            judge_create(case, r, ans[3 * i + 1], ans[3 * i + 2], bump, viol, disag, samples, keys, stats)
     return stats, viol, disag, samples, keys
 
 
@@ -498,9 +598,7 @@ def real_create(case):
     from yamlpath import Processor
     from yamlpath.enums import YAMLValueFormats
     j = case["doc"]
-    path = path_text(case["segs"], case.get("sep", "."))
-    if not parses_to(path, case["segs"]):
-        raise codec.OutOfModel("the path text does not parse to the intended key / index segments")
+    path = case_path(case)              # fenced by the caller with the parser MODEL (model_parses_to)
     v = case["v"][1]
     doc = ed.build(j)
     proc = Processor(core.quiet_logger(), doc)
@@ -547,8 +645,14 @@ def null_prefix(j, segs):
 def judge_create(case, r, ans, ns, bump, viol, disag, samples, keys, stats):
     res, after, resolved = r
     j = case["doc"]
-    path = path_text(case["segs"], case.get("sep", "."))
+    path = case_path(case)
     rep = dict(case, path=path)
+    if case.get("quote") and (path.count(case["quote"]) >= 2):
+        bump("create:key-in-quotation-marks")
+    if case["v"][0] == "str" and case["v"][1][:1] in ("'", '"') and case["v"][1][-1:] == case["v"][1][:1] and len(case["v"][1]) > 1:
+        bump("create:value-is-a-quoted-literal:" + case["mode"])
+    if not parses_to(path, case["segs"]):
+        bump("create:real-parser-reads-other-segments")     # judged all the same: the text denotes these segments
     if any(not (c.isalnum() or c in "_-") for k, r_ in case["segs"] if k == "k" for c in str(r_)):
         bump("create:key-needs-escapes")
     if any(k == "k" and str(r_).lstrip("-").isdigit() for k, r_ in case["segs"]):
@@ -579,7 +683,8 @@ def judge_create(case, r, ans, ns, bump, viol, disag, samples, keys, stats):
                     return
         if res[0] != mclass:
             if res[0].startswith("crash"):
-                viol.append(("%s@%s" % (res[0], res[1]), "creating %s raised %s" % (path, res[0]), rep))
+                cls = ":int-lookalike-text" if is_int_lookalike(case["v"][1]) else ""
+                viol.append(("%s@%s%s" % (res[0], res[1], cls), "creating %s with the value %r raised %s" % (path, case["v"][1], res[0]), rep))
             else:
                 disag.append(("create-error-class", "model says %s, implementation %s at %s" % (ans["err"], res[0], path), rep))
         elif res[0].startswith("crash"):
@@ -589,7 +694,8 @@ def judge_create(case, r, ans, ns, bump, viol, disag, samples, keys, stats):
         return
     if res[0] != "ok":
         if res[0].startswith("crash"):
-            viol.append(("%s@%s" % (res[0], res[1]), "creating %s raised %s" % (path, res[0]), rep))
+            cls = ":int-lookalike-text" if is_int_lookalike(case["v"][1]) else ""
+            viol.append(("%s@%s%s" % (res[0], res[1], cls), "creating %s with the value %r raised %s" % (path, case["v"][1], res[0]), rep))
         else:
             disag.append(("create-error-class", "model creates %s, implementation raised %s" % (path, res[0]), rep))
         return
@@ -613,7 +719,9 @@ def judge_create(case, r, ans, ns, bump, viol, disag, samples, keys, stats):
                 viol.append(("create-changes-existing-node", "creating %s changed a pre-existing node outside the created spine" % path, rep))
                 return
     if after != ans["ok"]:
-        viol.append(("create-differs", "after creating %s the document is not the original plus exactly the missing tail" % path, rep))
+        viol.append(("create-differs", "after %s the document is not the original plus exactly the missing tail holding the value" % (
+            "set_value(%s, %r, %s)" % (path, case["v"][1], case["fmt"]) if case["mode"] == "set" else
+            "get_nodes(%s, mustexist=False, default_value=%r)" % (path, case["v"][1])), rep))
         return
     # direct check: the path now resolves to exactly one node holding the value
     if case["mode"] == "set" and "ok" in ns["plain"]:
@@ -621,6 +729,14 @@ def judge_create(case, r, ans, ns, bump, viol, disag, samples, keys, stats):
         got = [codec.strip_anchors(x) for x in resolved] if isinstance(resolved, list) else resolved
         if got != [want]:
             viol.append(("create-path-does-not-resolve", "after set_value(%s, %r) the path resolves to %s, expected exactly [%s]" % (
+                path, case["v"][1], json.dumps(got)[:120], json.dumps(want)), rep))
+            return
+    if case["mode"] == "get" and new_addrs and "ok" in ns["wrap"]:
+        # the created path resolves to the SUPPLIED value (a text stays that text, quotation marks and all)
+        want = ns["wrap"]["ok"]
+        got = [codec.strip_anchors(x) for x in resolved] if isinstance(resolved, list) else resolved
+        if got != [want]:
+            viol.append(("create-path-does-not-resolve", "after get_nodes(%s, mustexist=False, default_value=%r) the path resolves to %s, expected exactly [%s]" % (
                 path, case["v"][1], json.dumps(got)[:120], json.dumps(want)), rep))
             return
     if new_addrs:
